@@ -410,7 +410,10 @@ func runCrash(c *Case, replay bool) (*failure, []string) {
 			to = from
 		}
 		spec := drive.ChildSpec{Dir: dir, Program: p, From: from, To: to}
-		if !rd.Clean && (!replay || rd.Site == "") {
+		if rd.Abandon {
+			spec.NoClose = true // the process executes the segment and dies without closing
+		}
+		if !rd.Clean && !rd.Abandon && (!replay || rd.Site == "") {
 			prof, err := drive.ProfileRound(root, dir, spec)
 			if err != nil {
 				return &failure{"child-error", err.Error()}, classes
@@ -436,12 +439,16 @@ func runCrash(c *Case, replay bool) (*failure, []string) {
 				}
 			}
 		}
-		if !rd.Clean {
+		if !rd.Clean && !rd.Abandon {
 			spec.CrashSite, spec.CrashN = rd.Site, rd.N
 		}
 		res, err := drive.RunChild(spec, root, fmt.Sprintf("r%d", ri))
 		if err != nil {
 			return &failure{"child-error", err.Error()}, classes
+		}
+		if rd.Abandon && res.ExitCode == 0 {
+			res.Crashed = true
+			rd.Site = "abandon-after-segment"
 		}
 		// (a) numbers reported at acknowledgement keep increasing, across rounds
 		var issued [][]ent
@@ -618,7 +625,18 @@ func TestPropCrash(t *testing.T) {
 			prev = to
 		}
 		c := Case{Program: p, Rounds: rounds}
+		if rapid.IntRange(0, 7).Draw(t, "bufedge") == 0 {
+			// the process dies with the log file ending at / around a record header
+			// or exactly between two fragments of an entry (sizes computed from the
+			// 64 KiB log buffer), then recovers, writes and restarts again
+			be := gen.BufEdge(t)
+			c = Case{Program: be.Program, Rounds: be.Rounds}
+			rounds = be.Rounds
+		}
 		f, classes := runCrash(&c, false)
+		if len(c.Rounds) > 0 && (c.Rounds[0].Abandon || (len(c.Rounds) > 1 && c.Rounds[1].Abandon)) {
+			classes = append(classes, "log_buffer_boundary_at_record_header_or_fragment_end")
+		}
 		nt := len(rounds) > 1
 		ev.R().Case(ev.Hash(&c), nt, append(classes, "kind:crash"), func() any { return &c })
 		if f != nil {
